@@ -71,6 +71,7 @@ type absEntry struct {
 type absFrame struct {
 	K  string     `json:"k"`
 	Es []absEntry `json:"es"`
+	Fm string     `json:"fm"` // framing: "whole" (one frame ending with the value) | "frag" (non-final frames + empty FIN) | "pad"
 }
 
 type absResp struct {
@@ -556,6 +557,72 @@ func (cl *client) send(data []byte) error {
 	return cl.c.Write(ctx, websocket.MessageText, data)
 }
 
+// sendFrag sends data as ONE message cut into non-final frames (one per part) and closed by an EMPTY final
+// continuation frame - what a streaming writer (conn.Writer, wsjson.Write, many client libraries) puts on the wire.
+func (cl *client) sendFrag(parts ...[]byte) error {
+	ctx, cancel := context.WithTimeout(context.Background(), stepWait)
+	defer cancel()
+	w, err := cl.c.Writer(ctx, websocket.MessageText)
+	if err != nil {
+		return err
+	}
+	for _, p := range parts {
+		if _, err := w.Write(p); err != nil {
+			return err
+		}
+	}
+	return w.Close()
+}
+
+// cut splits data at seeded points into 1..3 parts.
+func cut(rng *rand.Rand, data []byte) [][]byte {
+	n := 1 + rng.Intn(3)
+	if len(data) < 8 {
+		n = 1
+	}
+	var parts [][]byte
+	for ; n > 1; n-- {
+		k := 1 + rng.Intn(len(data)-1)
+		parts = append(parts, data[:k])
+		data = data[k:]
+		if len(data) < 2 {
+			break
+		}
+	}
+	return append(parts, data)
+}
+
+// sendFramed sends one message in the given framing.
+func (cl *client) sendFramed(data []byte, fm string, rng *rand.Rand) error {
+	if fm == "frag" {
+		return cl.sendFrag(cut(rng, data)...)
+	}
+	return cl.send(data)
+}
+
+// padValue: the JSON value (no surrounding whitespace), stretched from the inside to a length at which the server's
+// readers stop (its 128-byte bufio.Reader, the decoder's 512-byte buffer - and one byte either side of them), then
+// followed by insignificant whitespace: 1 byte .. more than any reader buffers, all of it inside the read limit.
+func padValue(rng *rand.Rand, val string) string {
+	targets := []int{0, 127, 128, 129, 511, 512, 513, 128, 512}
+	t := targets[rng.Intn(len(targets))]
+	if t > len(val) && len(val) > 2 && (val[0] == '{' || val[0] == '[') {
+		val = val[:1] + strings.Repeat([]string{" ", "\n", "\t"}[rng.Intn(3)], t-len(val)) + val[1:]
+	}
+	tails := []int{1, 1, 2, 17, 129, 385, 600, 1500, 2500}
+	n := tails[rng.Intn(len(tails))]
+	if max := readLimit - len(val) - 1; n > max {
+		n = max
+	}
+	if n < 1 {
+		return val
+	}
+	if n <= 2 || rng.Intn(2) == 0 {
+		return val + strings.Repeat("\n", n)
+	}
+	return val + strings.Repeat(" ", n)
+}
+
 // next returns the next frame (or the end of the connection); ok = false on harness timeout.
 func (cl *client) next(d time.Duration) (rxFrame, bool) {
 	if cl.ended != nil {
@@ -741,16 +808,23 @@ func (r *renderer) frame(fr absFrame, conn string, f int) ([]byte, []concrete) {
 	var cs []concrete
 	switch fr.K {
 	case "garbage":
-		return []byte(garbageTexts[r.rng.Intn(len(garbageTexts))]), nil
+		g := garbageTexts[r.rng.Intn(len(garbageTexts))]
+		if fr.Fm == "pad" {
+			g += strings.Repeat(" ", 1+r.rng.Intn(1500))
+		}
+		return []byte(g), nil
 	case "big":
 		// one request whose JSON value crosses the read limit
 		return []byte(`{"jsonrpc":"2.0","method":"m2","params":[7,"` + entryTag(conn, f, 1) + `"],"id":"` +
 			strings.Repeat("x", readLimit+100+r.rng.Intn(2000)) + `"}`), nil
 	case "single", "bigtail":
 		s, c := r.entry(fr.Es[0], entryTag(conn, f, 1), f, 1)
-		if fr.K == "bigtail" {
+		switch {
+		case fr.K == "bigtail":
 			s += strings.Repeat(" ", readLimit+1+r.rng.Intn(500))
-		} else {
+		case fr.Fm == "pad":
+			s = padValue(r.rng, s)
+		default:
 			s = r.ws() + s + r.ws()
 		}
 		return []byte(s), []concrete{c}
@@ -760,6 +834,9 @@ func (r *renderer) frame(fr absFrame, conn string, f int) ([]byte, []concrete) {
 		s, c := r.entry(e, entryTag(conn, f, i+1), f, i+1)
 		parts = append(parts, s)
 		cs = append(cs, c)
+	}
+	if fr.Fm == "pad" {
+		return []byte(padValue(r.rng, "["+strings.Join(parts, r.ws()+","+r.ws())+"]")), cs
 	}
 	return []byte(r.ws() + "[" + strings.Join(parts, r.ws()+","+r.ws()) + "]" + r.ws()), cs
 }
@@ -1193,11 +1270,32 @@ func (r *run) expectFrame(what string) ([]byte, bool) {
 		return nil, false
 	}
 	if f.err != nil {
+		if fm := r.oddFraming(); fm != "" {
+			r.diverge("ws-framing:later-message-unanswered:after-"+fm,
+				"the server ended the connection where "+what+" was due, after the client had sent a well-formed message "+framingText[fm]+
+					": every later message on the connection goes unanswered ("+f.err.Error()+")", what, f.err.Error())
+			return nil, false
+		}
 		r.diverge("ws-stream:connection-ended-early:"+keyify(what),
 			"the connection ended where "+what+" was due: "+f.err.Error(), what, f.err.Error())
 		return nil, false
 	}
 	return f.data, true
+}
+
+var framingText = map[string]string{
+	"frag": "cut into non-final frames closed by an empty FIN frame (a streaming writer)",
+	"pad":  "followed by insignificant whitespace inside the read limit",
+}
+
+// oddFraming: the framing of the last message sent so far that was not one compact frame ("" if none).
+func (r *run) oddFraming() string {
+	for i := len(r.frames) - 1; i >= 0; i-- {
+		if r.frames[i].K != "big" && r.frames[i].K != "bigtail" && (r.frames[i].Fm == "frag" || r.frames[i].Fm == "pad") {
+			return r.frames[i].Fm
+		}
+	}
+	return ""
 }
 
 // expectEnd drains the client until the connection ends; wantStatus 0 = any ending.
@@ -1267,8 +1365,11 @@ func (r *run) doStep(s mstep) {
 		for i := range s.Fr.Es {
 			r.w.newGate(entryTag(r.tag(), f, i+1))
 		}
-		if err := r.cl.send(data); err != nil {
+		if err := r.cl.sendFramed(data, s.Fr.Fm, r.rd.rng); err != nil {
 			r.timeout("client write failed: " + err.Error())
+		}
+		if s.Fr.Fm == "frag" || s.Fr.Fm == "pad" {
+			r.g.out.Count("messages_sent_"+map[string]string{"frag": "fragmented_with_empty_fin", "pad": "with_padding_behind_the_value"}[s.Fr.Fm], 1)
 		}
 	case "ServerRead", "RespNone":
 		if s.A == "RespNone" {
@@ -1457,8 +1558,14 @@ func (r *run) finish() {
 			if f.err != nil {
 				// frames still queued when the behaviour was cut may end the connection (read limit)
 				if websocket.CloseStatus(f.err) != websocket.StatusMessageTooBig {
-					r.diverge("ws-stream:connection-ended-early:sentinel", "the connection ended before the sentinel was answered: "+f.err.Error(),
-						"sentinel response", f.err.Error())
+					if fm := r.oddFraming(); fm != "" {
+						r.diverge("ws-framing:later-message-unanswered:after-"+fm,
+							"the server ended the connection before a later request (the sentinel) was answered, after the client had sent a well-formed message "+
+								framingText[fm]+" ("+f.err.Error()+")", "sentinel response", f.err.Error())
+					} else {
+						r.diverge("ws-stream:connection-ended-early:sentinel", "the connection ended before the sentinel was answered: "+f.err.Error(),
+							"sentinel response", f.err.Error())
+					}
 				}
 				break
 			}
@@ -1719,6 +1826,25 @@ func (sc *stressConn) run(in *input, rng *rand.Rand) {
 		sc.mu.Unlock()
 		wctx, cancel := context.WithTimeout(ctx, stepWait)
 		defer cancel()
+		switch rng.Intn(6) {
+		case 0: // through a streaming writer: non-final frame(s) + empty FIN frame
+			wr, err := c.Writer(wctx, websocket.MessageText)
+			if err != nil {
+				return false
+			}
+			for _, p := range cut(rng, []byte(s)) {
+				if _, err := wr.Write(p); err != nil {
+					return false
+				}
+			}
+			sc.g.out.Count("stress_messages_fragmented", 1)
+			return wr.Close() == nil
+		case 1: // insignificant whitespace behind the value, inside the read limit
+			if n := readLimit - len(s) - 1; n > 0 && json.Valid([]byte(s)) {
+				s = padValue(rng, s)
+				sc.g.out.Count("stress_messages_padded", 1)
+			}
+		}
 		return c.Write(wctx, websocket.MessageText, []byte(s)) == nil
 	}
 	id := 0
@@ -2265,6 +2391,113 @@ func (d *directed) closeReason(round int) {
 	}
 }
 
+// framing: a FIRST message in every framing shape - cut into frames by a streaming writer (non-final frames + an empty
+// FIN frame), followed by whitespace that ends behind one of the server's read boundaries, both - then LATER messages
+// on the same connection: every one of them that owes a response gets it. (The JSON-RPC server stops reading at the end
+// of the first JSON value; what is left of the websocket message is the transport's business.)
+func (d *directed) framing(round int) {
+	rng := rand.New(rand.NewSource(d.in.Seed*31 + int64(round)))
+	stretch := func(val string, n int) string { // from the inside, to exactly n bytes
+		if len(val) >= n {
+			return val
+		}
+		return val[:1] + strings.Repeat(" ", n-len(val)) + val[1:]
+	}
+	first := `{"jsonrpc":"2.0","method":"m2","params":[7,"x"],"id":1}`
+	notif := `{"jsonrpc":"2.0","method":"m2","params":[7,"n"]}`
+	batch := `[{"jsonrpc":"2.0","method":"m2","params":[7,"x"],"id":1},{"jsonrpc":"2.0","method":"m2","params":[7,"n"]}]`
+	type shape struct {
+		name  string
+		parts []string // one part: a single frame; several: non-final frames + empty FIN
+		owes  bool
+	}
+	shapes := []shape{
+		{"frag:one-frame-then-empty-fin", []string{first, ""}, true},
+		{"frag:three-frames-then-empty-fin", []string{first[:9], first[9:30], first[30:], ""}, true},
+		{"frag:batch", []string{batch[:40], batch[40:], ""}, true},
+		{"frag:notification", []string{notif, ""}, false},
+		{"frag:whitespace-in-its-own-frame", []string{first, "\n  \n", ""}, true},
+		{"pad:128-byte-value-then-newline", []string{stretch(first, 128) + "\n"}, true},
+		{"pad:512-byte-value-then-newline", []string{stretch(first, 512) + "\n"}, true},
+		{"pad:value-then-many-spaces", []string{first + strings.Repeat(" ", 700+rng.Intn(2500))}, true},
+		{"pad:notification-128-then-newline", []string{stretch(notif, 128) + "\r\n"}, false},
+		{"pad:batch-then-newlines", []string{stretch(batch, 128+rng.Intn(2)*384) + strings.Repeat("\n", 1+rng.Intn(3))}, true},
+	}
+	for _, sh := range shapes {
+		w := newWorld(fmt.Sprintf("d6r%d", round), 2, true)
+		a, err := w.dial("A")
+		if err != nil {
+			d.timeout("dial")
+			w.close()
+			return
+		}
+		await := func(what, wantSub, key string) bool {
+			f, ok := a.next(stepWait)
+			switch {
+			case !ok:
+				d.timeout(what)
+				return false
+			case f.err != nil:
+				d.diverge(key+sh.name, "the server ended the connection where "+what+" was due; the client had sent nothing but well-formed "+
+					"messages, the first one "+sh.name+" ("+f.err.Error()+")", wantSub, f.err.Error())
+				return false
+			case !bytes.Contains(f.data, []byte(wantSub)):
+				d.diverge("ws-framing:wrong-frame:"+sh.name, "another frame arrived where "+what+" was due", wantSub, short(f.data))
+				return false
+			}
+			return true
+		}
+		ok := true
+		if len(sh.parts) == 1 {
+			ok = a.send([]byte(sh.parts[0])) == nil
+		} else {
+			var ps [][]byte
+			for _, p := range sh.parts[:len(sh.parts)-1] {
+				ps = append(ps, []byte(p))
+			}
+			ok = a.sendFrag(ps...) == nil
+		}
+		if !ok {
+			d.timeout("client write")
+		}
+		if ok && sh.owes {
+			ok = await("the response to the first message", `"id":1`, "ws-framing:message-unanswered:")
+		}
+		for id := 2; ok && id <= 4; id++ {
+			req := fmt.Sprintf(`{"jsonrpc":"2.0","method":"m2","params":[7,"y"],"id":%d}`, id)
+			if id == 3 { // a later message may come through a streaming writer, too
+				ok = a.sendFrag([]byte(req)) == nil
+			} else {
+				ok = a.send([]byte(req)) == nil
+			}
+			// (a write that fails: the server has closed the connection - the read below observes the close, or it is a harness timeout)
+			ok = await(fmt.Sprintf("the response to later request %d", id), fmt.Sprintf(`"id":%d`, id), "ws-framing:later-message-unanswered:")
+		}
+		if ok {
+			w.mu.Lock()
+			n := len(w.invs["A"])
+			w.mu.Unlock()
+			want := 4
+			if strings.Contains(sh.name, "batch") {
+				want = 5 // the batch carries a request and a notification
+			}
+			if n != want {
+				d.diverge("ws-framing:handler-invocations:"+sh.name, "every valid request / notification sent must have run its handler exactly once", want, n)
+				ok = false
+			}
+		}
+		if ok {
+			d.g.out.Done(1, 4)
+			d.g.out.Count("framing_shapes_followed_by_answered_later_requests", 1)
+		}
+		a.kill()
+		w.close()
+		if !ok {
+			return
+		}
+	}
+}
+
 func TestWsDirected(t *testing.T) {
 	if !vh.Enabled() {
 		t.Skip("driver only")
@@ -2277,6 +2510,9 @@ func TestWsDirected(t *testing.T) {
 	defer out.Write()
 	d := &directed{g: &engine{out: out, seed: in.Seed}, in: &in}
 	for round := 0; round < in.Rounds && d.g.divs.Load() == 0 && d.g.timeouts.Load() == 0; round++ {
+		if d.framing(round); d.g.divs.Load() != 0 || d.g.timeouts.Load() != 0 {
+			break
+		}
 		d.shutdownInFlight(round)
 		d.abruptClose(round, round%2 == 0)
 		d.crossConnection(round)
